@@ -7,7 +7,7 @@ import numpy as np
 
 from solvers import solve_with_batch, COMBOS, Prepared, dense_design, solver_cells
 
-UNITS = ["SolverStruct", "BatchGen", "DesignGen", "ShapesSolvers"]
+UNITS = ["SolverStruct", "BatchGen", "DesignGen", "ShapesSolvers", "SkelSolvers"]
 PROPS = ["props/C13.v"]
 ASSUMPTIONS = ["exact real arithmetic in the theorems; agreement 'to precision' (1e-7 relative to the largest element) is a tolerance check on well-conditioned data"]
 
